@@ -31,6 +31,26 @@ claim("C01", "S3",
       "access is not intercepted. Trusted base: Python ast, the analyser under /verif/sa.",
       "ast guard-dominance + who-may-call (call graph) typestate check")
 
+claim("C02", "S2",
+      "Ownership discipline: (a) the AutoDetachObserver reaches dispose() after every terminal notification on every "
+      "path and dispose() releases the stored source subscription; (b) every subscription / scheduled item / ref-count "
+      "dependent acquired in the closure tree of each of the ~115 subscribe functions is reachable through held-by "
+      "edges from the disposable that function returns; (c) every group/window observable handed downstream is tied to "
+      "the returned RefCountDisposable. Decides the discipline whose conjunction is the standard release argument, for "
+      "all operators, not a sampled pipeline.",
+      "Held-by graph is flow-insensitive per closure tree (an acquisition held on one path only is not detected); "
+      "container run-time behaviour is C25-C27; results of unknown calls are assumed to hold their arguments.",
+      "ast ownership (held-by reachability) analysis + must-pass-through on the wrapper")
+
+claim("C03", "S2",
+      "Discipline: the disposable returned by Observable.subscribe is bound to the wrapper's dispose, which silences all "
+      "entry points and disposes the stored subscription; E7 ownership for every subscribe function (one dispose reaches "
+      "every acquisition); every scheduler run loop tests is_cancelled() before invoke() and cancel disposes the item; "
+      "synchronous emit loops poll a flag set through the returned disposable.",
+      "Does not decide callbacks already on the stack when dispose() is called, nor the run-time behaviour of the "
+      "disposable containers (C26). Single thread / virtual time as the property states.",
+      "ast ownership analysis + guard dominance (invoke guard) + producer poll-flag def-use")
+
 na("C15", "arithmetic over run-time timestamps (queue ordering by timestamp + duetime, 'exactly d later'); no structural "
           "clause that is both necessary and robust beyond ownership/guarding/falsy rules already decided under "
           "C02/C03/C08/C09, whose scope includes these files")
